@@ -1,22 +1,34 @@
 #!/usr/bin/env python3
-"""tools/try_patch.py <patch.diff> [Cxx ...]  — apply a seeded change to /repo, run the quick checks, undo it.
-Prints one line per property: exit code and the VIOLATION / KNOWN-FINDING lines."""
+"""tools/try_patch.py <patch.diff> [Cxx ...]  — apply a seeded change to a scratch worktree of /repo and run the quick checks
+against it (GCMPY_REPO), so /repo itself is never touched.  --in-repo applies it to /repo instead (and undoes it)."""
 import json
+import os
 import subprocess
 import sys
 from pathlib import Path
 
 VERIF = Path(__file__).resolve().parents[1]
-patch = Path(sys.argv[1]).resolve()
-props = sys.argv[2:] or [c["property_id"] for c in json.load(open(VERIF / "MANIFEST.json"))["checks"]]
-assert subprocess.run(["git", "-C", "/repo", "status", "--porcelain"], capture_output=True, text=True).stdout.strip() == "", "/repo dirty"
-subprocess.check_call(["git", "-C", "/repo", "apply", str(patch)])
+args = [a for a in sys.argv[1:] if a != "--in-repo"]
+in_repo = "--in-repo" in sys.argv
+patch = Path(args[0]).resolve()
+props = args[1:] or [c["property_id"] for c in json.load(open(VERIF / "MANIFEST.json"))["checks"]]
+if in_repo:
+    target = Path("/repo")
+    assert subprocess.run(["git", "-C", "/repo", "status", "--porcelain"], capture_output=True, text=True).stdout.strip() == "", "/repo dirty"
+else:
+    target = Path(f"/tmp/trypatch_{os.getpid()}")
+    subprocess.check_call(["git", "-C", "/repo", "worktree", "add", "-q", str(target), "HEAD"])
+subprocess.check_call(["git", "-C", str(target), "apply", str(patch)])
 try:
+    env = dict(os.environ, GCMPY_REPO=str(target))
     for p in props:
         r = subprocess.run(["/venv/bin/python", "harness/run.py", "--property", p, "--tier", "quick"], cwd=VERIF,
-                           capture_output=True, text=True)
+                           capture_output=True, text=True, env=env)
         lines = [l for l in r.stdout.split("\n") if l.startswith(("VIOLATION", "KNOWN-FINDING"))]
         last = [l for l in r.stdout.strip().split("\n") if l.startswith(p)][-1:] or [r.stderr.strip().split("\n")[-1][:200]]
         print(f"{p}: exit={r.returncode} {' | '.join(l[:160] for l in lines)} :: {last[0][:200]}")
 finally:
-    subprocess.check_call(["git", "-C", "/repo", "checkout", "--", "."])
+    if in_repo:
+        subprocess.check_call(["git", "-C", "/repo", "checkout", "--", "."])
+    else:
+        subprocess.run(["git", "-C", "/repo", "worktree", "remove", "--force", str(target)])
